@@ -284,7 +284,7 @@ add_merger((1, 1, 1), "213", "ARR", "quick")
 add_merger((1, 2), None, "AR", "quick")
 add_merger((1, 2), None, "ARR", "thorough")
 add_merger((0, 2), "22", "ARR", "quick")
-for perm in ("11122", "12121", "22111", "21212"):
+for perm in ("11122", "12121", "22111", "12112"):
     add_merger((3, 2), perm, "ARR", "thorough")
 for perm in ("1212", "2112"):
     add_merger((2, 2), perm, "ARRR", "thorough")
